@@ -254,6 +254,46 @@ func TestGovcBoundedC08Deviations(t *testing.T) {
 			}
 		}
 	}
+	// fixed cases: not-supported on the input and output of an rpc and of an action; two revisions
+	// of a deviating module side by side (both apply theirs, in every run)
+	{
+		evals++
+		ms := NewModules()
+		for i, src := range []string{
+			`module m { namespace "urn:m"; prefix m; rpc r { input { leaf i { type string; } } output { leaf o { type string; } } } container c { action a { input { leaf i { type string; } } output { leaf o { type string; } } } leaf keep { type string; } } }`,
+			`module d { namespace "urn:d"; prefix d; import m { prefix m; } deviation "/m:r/m:input" { deviate not-supported; } deviation "/m:c/m:a/m:output" { deviate not-supported; } }`} {
+			if err := ms.Parse(src, fmt.Sprintf("rpcdev%d.yang", i)); err != nil {
+				fmt.Printf("GOVC-FAIL name=c08-deviations fixed case does not parse: %v\n", err)
+			}
+		}
+		if errs := ms.Process(); len(errs) > 0 {
+			fmt.Printf("GOVC-FAIL name=c08-deviations not-supported on rpc input / action output: %v\n", errs)
+		} else {
+			e := ToEntry(ms.Modules["m"])
+			r, a := e.Dir["r"], e.Dir["c"].Dir["a"]
+			if r.RPC.Input != nil || r.RPC.Output == nil || a.RPC.Output != nil || a.RPC.Input == nil || e.Dir["c"].Dir["keep"] == nil || len(r.Errors)+len(a.Errors) > 0 {
+				fmt.Printf("GOVC-FAIL name=c08-deviations not-supported on /r/input and /c/a/output: rpc input %v output %v, action input %v output %v, errors %v %v\n", r.RPC.Input != nil, r.RPC.Output != nil, a.RPC.Input != nil, a.RPC.Output != nil, r.Errors, a.Errors)
+			}
+		}
+		for run := 0; run < 12; run++ {
+			evals++
+			ms := NewModules()
+			for i, src := range []string{
+				`module m { namespace "urn:m"; prefix m; leaf one { type string; } leaf two { type string; } leaf three { type string; } }`,
+				`module dev { namespace "urn:dev"; prefix dev; import m { prefix m; } revision 2020-01-01; deviation "/m:one" { deviate not-supported; } }`,
+				`module dev { namespace "urn:dev"; prefix dev; import m { prefix m; } revision 2021-01-01; deviation "/m:two" { deviate not-supported; } }`} {
+				if err := ms.Parse(src, fmt.Sprintf("revdev%d.yang", i)); err != nil {
+					fmt.Printf("GOVC-FAIL name=c08-deviations fixed case does not parse: %v\n", err)
+				}
+			}
+			errs := ms.Process()
+			e := ToEntry(ms.Modules["m"])
+			if len(errs) > 0 || e.Dir["one"] != nil || e.Dir["two"] != nil || e.Dir["three"] == nil {
+				fmt.Printf("GOVC-FAIL name=c08-deviations two revisions of a deviating module (run %d): errors %v, one %v two %v three %v (want both removed)\n", run, errs, e.Dir["one"] != nil, e.Dir["two"] != nil, e.Dir["three"] != nil)
+				break
+			}
+		}
+	}
 	fmt.Printf("GOVC-BOUNDED name=c08-deviations-vs-model bound=%d_random_schemas_with_1-5_deviations_(several_deviate_statements_each,_seed_%d;_%d_with_a_deviation_that_cannot_be_applied)_x_2_option_settings evaluations=%d distinct=%d\n", schemas, seed, bad, evals, nodes)
 }
 
